@@ -36,18 +36,33 @@ def main():
         members = [[k, int(v)] for k, v in c._member_map_.items()]
         ent = {'module': c.__module__, 'qualname': c.__qualname__, 'members': members,
                'member_names': list(c._member_names_)}
-        if hasattr(c, '_enum_values') and hasattr(c, '_enum_offset'):
-            ev = c._enum_values
-            et = type(ev[0]) if ev else None
-            ent['mask'] = {'offset': int(c._enum_offset), 'values': [[v.name, int(v)] for v in ev],
-                           'enum': (et.__module__ + ':' + et.__qualname__) if et else None}
+        if callable(getattr(c, 'to_bitmask', None)) and callable(getattr(c, 'to_values', None)):
+            # an enum_bitmask helper; its parameters are read off its public behaviour: -1 has every bit set
+            ev = c.to_values(-1)
+            if not ev:
+                raise RuntimeError('mask helper %s knows no members' % c.__qualname__)
+            et = type(ev[0])
+            off = int(ev[0]) - (c.to_bitmask([ev[0]]).bit_length() - 1)
+            for v in ev:
+                if type(v) is not et or c.to_bitmask([v]) != 1 << (int(v) - off):
+                    raise RuntimeError('mask helper %s is not of the form 1 << (value - offset)' % c.__qualname__)
+            ent['mask'] = {'offset': off, 'values': [[v.name, int(v)] for v in ev],
+                           'enum': et.__module__ + ':' + et.__qualname__}
         out.append(ent)
     out.sort(key=lambda e: (e['module'], e['qualname']))
 
     class Dummy(enum_utils.IntEnum):
         pass
     internals = [e[0] for e in inspect.getmembers(Dummy)]
-    json.dump({'enums': out, 'skipped_modules': skipped, 'loaded_modules': len(loaded), 'internals': internals,
+    # the naming of hidden members, read off a scratch class: prefix + separator + decimal value
+    class Probe(enum_utils.IntEnum):
+        A = 0
+    prefix = enum_utils.DynamicEnumMeta.UNRECOGNIZED_PREFIX
+    hidden = Probe(7, raise_on_unrecognized=False).name
+    if not (hidden.startswith(prefix) and hidden.endswith('7') and len(hidden) > len(prefix)):
+        raise RuntimeError('hidden member of value 7 is named %r: not prefix %r + separator + value' % (hidden, prefix))
+    sep = hidden[len(prefix):-1]
+    json.dump({'sep': sep, 'enums': out, 'skipped_modules': skipped, 'loaded_modules': len(loaded), 'internals': internals,
                'prefix': enum_utils.DynamicEnumMeta.UNRECOGNIZED_PREFIX}, OUT)
     OUT.flush()
 
